@@ -221,7 +221,7 @@ func (p *parser) parseIndexOrSliceExpr(left Node, allowSlice bool) Node {
 	p.advanceWSS() // advance past ]
 	t := STRING_TYPE
 	if leftType != STRING {
-		t = fixedType(left.Type().Sub)
+		t = fixedType(left.Type().Sub.infer())
 	}
 	return &IndexExpression{token: tok, Left: left, Index: index, T: t}
 }
@@ -268,7 +268,7 @@ func (p *parser) parseSlice(tok *lexer.Token, left, start Node) Node {
 		return nil
 	}
 
-	return &SliceExpression{token: tok, Left: left, Start: start, End: end, T: fixedType(left.Type())}
+	return &SliceExpression{token: tok, Left: left, Start: start, End: end, T: fixedType(left.Type().infer())}
 }
 
 func (p *parser) parseDotExpr(left Node) Node {
@@ -292,7 +292,7 @@ func (p *parser) parseDotExpr(left Node) Node {
 		p.appendErrorForToken(`expected map key, found `+p.cur.TokenType().String(), tok)
 		return nil
 	}
-	expr := &DotExpression{token: tok, Left: left, T: fixedType(left.Type().Sub), Key: key.Literal}
+	expr := &DotExpression{token: tok, Left: left, T: fixedType(left.Type().Sub.infer()), Key: key.Literal}
 	p.advance() // advance past key IDENT
 	return expr
 }
